@@ -225,6 +225,12 @@ class Parser:
         return {"first": left, "joins": joins}
 
     def tref(self):
+        if self.at_op("(") and not (self.peek(1) == ("kw", "SELECT") or self.peek(1) == ("op", "(")):
+            # parenthesised join: ( a JOIN b ON ... )
+            self.i += 1
+            fc = self.from_clause()
+            self.eat_op(")")
+            return {"joingroup": fc}
         if self.try_op("("):
             st = self.stmt()
             self.eat_op(")")
